@@ -52,3 +52,16 @@ package mavl
 //@   requires sha256Len >= 0
 //@   ensures result ==> called(Verify) && ret(Verify)
 //@   assert@call Verify: arg3 == roothash
+
+// ---- C04: computing a pending tree's hashes never marks a node persisted ---------------------------------
+// Tree.Save skips persisted nodes (and everything beneath them), so a node may only become persisted by being
+// written. Hashing (done for every pending update at MemSet time, whether it is later committed or rolled back)
+// must leave Node.persisted alone, whatever the mem-tree cache of earlier, possibly discarded, updates holds.
+// updateLocalMemTree / genPrefixHashKey only read the node (trusted frames).
+//@ trusted func genPrefixHashKey
+//@   frame allocates
+//@ trusted func updateLocalMemTree
+//@   frame ~Node.persisted
+//@ func (*Node).Hash [C04]
+//@   opt safety=assumed overflow=assumed panics=allowed
+//@   frame ~Node.persisted
